@@ -15,7 +15,8 @@ from ..tlc import run_tlc, require_ok
 BAD_CHARS = ["!", "_", "я", "&", "#"]
 # characters outside the alphabet that Unicode case mapping folds INTO it (dotless i -> I, long s -> S, Kelvin sign -> K / k,
 # ligature st -> "ST", sharp s -> "SS", dotted capital I): Codec.tla's "bad" item all the same - an error is due
-FOLDING_CHARS = ["\u0131", "\u017f", "\u212a", "\ufb06", "\ufb05", "\u00df", "\u0130", "\ufb00"]
+FOLDING_CHARS = ["\u0131", "\u017f", "\u212a", "\ufb06", "\ufb05", "\u00df", "\u0130", "\ufb00",
+                 "\u00a4", "\uff21", "\u0391", "\uff04"]     # the second glyph of bk byte 0x24; full-width A, Greek Alpha, full-width $
 
 
 def cfg(mode, max_items, invs):
